@@ -36,6 +36,11 @@ var comps = []Comp{
 	{"messengers.has", []string{SBV(32)}, SBool}, {"messengers.addr", []string{SBV(32)}, SBytes}, {"messengers.dom", []string{SBV(32)}, SBV(32)},
 	// ghost cardinal of the attester collection (number of raw keys under its prefix)
 	{"nAtt", nil, SBV(64)},
+	// the other collections as ordered lists (what GetAll* return; L3 only, their GetAll* contracts are trusted)
+	{"nLimits", nil, SBV(64)}, {"limitList.Denom", []string{SBV(64)}, SBytes}, {"limitList.Amount.nil", []string{SBV(64)}, SBool}, {"limitList.Amount.v", []string{SBV(64)}, SBV(bigW)},
+	{"nPairs", nil, SBV(64)}, {"pairList.RemoteDomain", []string{SBV(64)}, SBV(32)}, {"pairList.RemoteToken", []string{SBV(64)}, SBytes}, {"pairList.RemoteToken.isnil", []string{SBV(64)}, SBool}, {"pairList.LocalToken", []string{SBV(64)}, SBytes},
+	{"nNonces", nil, SBV(64)}, {"nonceList.SourceDomain", []string{SBV(64)}, SBV(32)}, {"nonceList.Nonce", []string{SBV(64)}, SBV(64)},
+	{"nMsgrs", nil, SBV(64)}, {"msgrList.DomainId", []string{SBV(64)}, SBV(32)}, {"msgrList.Address", []string{SBV(64)}, SBytes}, {"msgrList.Address.isnil", []string{SBV(64)}, SBool},
 	// the attester collection as the ordered list its prefix range yields (Attester strings; "" beyond nAtt)
 	{"attList", []string{SBV(64)}, SBytes},
 }
@@ -208,6 +213,11 @@ func coupling(st *State, name string, keys []*Term) *Term {
 		return dec("RemoteTokenMessenger", "DomainId", SBV(32), val(k))
 	case "nAtt":
 		return st.cnt["Attester/value/"]
+	case "nLimits", "nPairs", "nNonces", "nMsgrs":
+		return App("rangeCountOf_"+name, SBV(64), st.rawHas)
+	case "limitList", "pairList", "nonceList", "msgrList":
+		c := compByName[name]
+		return App("rangeCol_"+strings.ReplaceAll(name, ".", "_"), c.ValSort, st.rawHas, st.rawVal, keys[0])
 	case "attList":
 		k := rangeKeyTerm(st, BytesConst("Attester/value/"), keys[0])
 		return Ite(BVUlt(keys[0], st.cnt["Attester/value/"]), dec("Attester", "Attester", SBytes, Select(st.rawVal, k)), EmptyBytes)
